@@ -27,7 +27,7 @@ class C39(E1Prop):
                   'not exhibited); the autoscaler is replaced by "a fresh active instance appears after a preemption"; the server is harness/minisql. The Lean measure '
                   'theorem is claimed only when Props/C39.lean exists.')
     rule = ('case = submission prefix (1-2 committed updates of 1-5 pool jobs in nested groups with DAG parents) + script of 4-16 actor steps '
-            '(S scheduler, R/U/O canceller loops, W worker outcome, D duplicate report, F preemption, C cancel group, X second attempt reports started '
+            '(S scheduler, R/U/O canceller loops, W worker outcome, D duplicate report, F preemption, P preemption of the target instance while the worker request of schedule_job is in flight, C cancel group, X second attempt reports started '
             '= orphan, L late unschedule of the completed attempt) + fair run to quiescence; '
             'non-trivial = at least one job was scheduled by the real scheduler and one cancel or fault occurred; distinct by (prefix, script)')
 
@@ -67,7 +67,8 @@ class C39(E1Prop):
                         x['end_time'] is None and x['attempt_id'].startswith('orphan') and
                         after.attempts[(x['batch_id'], x['job_id'], x['attempt_id'])]['end_time'] is not None for x in before.attempts.values())),
                                 ('late-unschedule-of-completed-attempt', a == 'L' and act.last_complete is not None),
-                                ('orphan-attempt-recorded', a == 'X' and len(after.attempts) > len(before.attempts))):
+                                ('orphan-attempt-recorded', a == 'X' and len(after.attempts) > len(before.attempts)),
+                                ('instance-preempted-while-job-in-flight', a == 'P' and act.preempted_in_flight > 0)):
                     if cond and t not in res.tags:
                         res.tags.append(t)
                 if fail:
